@@ -784,3 +784,61 @@ func (f *Facts) TablesRead(fn *types.Func) map[*Table]bool {
 	visit(fn)
 	return out
 }
+
+// StringConsts returns every string constant that occurs in fn's summary or
+// in the summaries of functions it calls (comparison operands, defaults): the
+// parser rules add them to the tabulated input domain, so that a special case
+// such as  if s == "l" { ... }  cannot hide outside the tables.
+func (f *Facts) StringConsts(fn *types.Func) map[string]bool {
+	out := map[string]bool{}
+	seen := map[*types.Func]bool{}
+	var walkSum func(s Sum)
+	var visit func(fn *types.Func)
+	visit = func(fn *types.Func) {
+		if seen[fn] {
+			return
+		}
+		seen[fn] = true
+		s := f.Summarise(fn)
+		if s.Body != nil {
+			walkSum(s.Body)
+		}
+	}
+	walkSum = func(s Sum) {
+		switch x := s.(type) {
+		case SConst:
+			if x.V.Kind == VConst && x.V.C != nil && x.V.C.Kind() == constant.String {
+				out[constant.StringVal(x.V.C)] = true
+			}
+		case SLookup:
+			walkSum(x.M)
+			walkSum(x.Key)
+		case SHas:
+			walkSum(x.M)
+			walkSum(x.Key)
+		case SRev:
+			walkSum(x.M)
+			walkSum(x.Val)
+			walkSum(x.Else)
+		case SCall:
+			visit(x.Fn)
+			for _, a := range x.Args {
+				walkSum(a)
+			}
+		case SCmp:
+			walkSum(x.A)
+			walkSum(x.B)
+		case SNot:
+			walkSum(x.X)
+		case SBin:
+			walkSum(x.A)
+			walkSum(x.B)
+		case SIte:
+			walkSum(x.C)
+			walkSum(x.T)
+			walkSum(x.E)
+		}
+	}
+	visit(fn)
+	return out
+}
